@@ -15,11 +15,11 @@ package main
 import (
 	"bytes"
 	"encoding/base64"
-	"errors"
-	"os"
 	"encoding/hex"
 	"encoding/json"
+	"errors"
 	"fmt"
+	"os"
 	"sort"
 	"strconv"
 	"strings"
@@ -767,4 +767,3 @@ func (p *proc) processBlock(num uint64, evs []*event) (res blockResult) {
 	}
 	return
 }
-
